@@ -1,8 +1,180 @@
 import SLModel.Drv.Util
+import SLModel.Core.Cursor
 open Lean
 namespace SL.Drv.C11
+open SL.Drv SL.Cursor
 
-/-- stub: no model operations for C11 yet -/
-def handle (_req : Json) : Except String Json := .error "C11: not implemented"
+def strBytes (s : String) : Bytes := s.toUTF8.toList
+def asciiStr (b : Bytes) : String := String.ofList (b.map (fun x => Char.ofNat x.toNat))
+
+def errName : DecErr → String
+  | .length => "length" | .hex => "hex" | .version => "version" | .advance => "advance"
+  | .generation => "generation" | .json => "json" | .planHash => "plan_hash" | .arity => "arity"
+  | .fuel => "fuel"
+
+def valToJson : CVal → Json
+  | .score b => Json.mkObj [("t", "score"), ("v", b)]
+  | .i64 v => Json.mkObj [("t", "i64"), ("v", v)]
+  | .f64 l => Json.mkObj [("t", "f64"), ("lex", asciiStr l)]
+  | .str s => Json.mkObj [("t", "str"), ("hex", bytesToHex s)]
+  | .missing => Json.mkObj [("t", "missing")]
+
+def valOfJson (j : Json) : Except String CVal := do
+  let t ← getStr j "t"
+  match t with
+  | "score" => return .score (← getNat j "v")
+  | "i64" => return .i64 (← getInt j "v")
+  | "f64" => return .f64 (strBytes (← getStr j "lex"))
+  | "str" => return .str (← hexToBytes (← getStr j "hex"))
+  | "missing" => return .missing
+  | _ => throw s!"bad value tag {t}"
+
+def stateToJson (c : CursorState) : Json :=
+  Json.mkObj [("values", Json.arr (c.values.map valToJson).toArray), ("segment_ord", c.segmentOrd),
+    ("doc_id", c.docId), ("returned", c.returned), ("generation", c.generation),
+    ("plan_hash", match c.planHash with | some h => (h : Json) | none => Json.null)]
+
+def reqOfJson (j : Json) : Except String Req := do
+  let g ← getNat j "generation"
+  let h ← getNat j "plan_hash"
+  let l ← getNat j "plan_len"
+  let f ← getBool j "score_fast"
+  return { generation := g, planHash := h, planLen := l, scoreFast := f }
+
+def planOfJson (j : Json) : Except String (List PlanField) := do
+  let a ← j.getArr?
+  a.toList.mapM (fun f => do
+    let k ← getNat f "kind"
+    let d ← getBool f "desc"
+    return { kind := k, name := strBytes (getStrD f "name" ""), desc := d })
+
+def keyOfJson (j : Json) : Except String DKey := do
+  let ps ← getArr j "parts"
+  let parts ← ps.toList.mapM (fun p => match p with
+    | .null => pure none
+    | v => do let i ← v.getInt?; pure (some i))
+  let sg ← getNat j "seg"
+  let dc ← getNat j "doc"
+  return { parts := parts, seg := sg, doc := dc }
+
+def keyRef (k : DKey) : Json := Json.arr #[(k.seg : Json), (k.doc : Json)]
+
+def respToJson (r : Resp DKey) : Json :=
+  Json.mkObj [("hits", Json.arr (r.hits.map keyRef).toArray),
+    ("next", match r.next with
+      | none => Json.null
+      | some c => Json.mkObj [("seg", c.key.seg), ("doc", c.key.doc), ("returned", c.returned)]),
+    ("total", r.total)]
+
+def segOfJson (j : Json) : Except String Seg := do
+  let g ← getNat j "generation"
+  let d ← getNat j "docs"
+  let del ← natList (← j.getObjVal? "deleted")
+  return { generation := g, docs := d, deleted := del }
+
+def segToJson (s : Seg) : Json :=
+  Json.mkObj [("generation", s.generation), ("docs", s.docs), ("deleted", natsToJson s.deleted)]
+
+def pairOfJson (j : Json) : Except String (Nat × Nat) := do
+  let l ← natList j
+  match l with
+  | [a, b] => return (a, b)
+  | _ => throw "pair expected"
+
+def handle (req : Json) : Except String Json := do
+  let op ← getStr req "op"
+  match op with
+  | "decode" =>
+    -- {"raw": "<cursor string>", "req": {generation, plan_hash, plan_len, score_fast}}
+    let raw := strBytes (← getStr req "raw")
+    let r ← reqOfJson (← req.getObjVal? "req")
+    match decodeCursor r raw with
+    | .ok c => return Json.mkObj [("class", "ok"), ("state", stateToJson c)]
+    | .error e => return Json.mkObj [("class", "error"), ("err", errName e)]
+    | .unmodelled => return Json.mkObj [("class", "unmodelled")]
+  | "parse" =>
+    -- parse without the request's checks: {"raw", "score": bool}
+    let raw := strBytes (← getStr req "raw")
+    if ← getBool req "score" then
+      match parseScore raw with
+      | .ok c => return Json.mkObj [("class", "ok"), ("state", stateToJson
+          { values := [.score c.scoreBits], segmentOrd := c.segmentOrd, docId := c.docId,
+            returned := c.returned, generation := c.generation, planHash := none }), ("version", c.version)]
+      | .error e => return Json.mkObj [("class", "error"), ("err", errName e)]
+      | .unmodelled => return Json.mkObj [("class", "unmodelled")]
+    else
+      match parseSort raw with
+      | .ok c => return Json.mkObj [("class", "ok"), ("state", stateToJson
+          { values := c.values, segmentOrd := c.segmentOrd, docId := c.docId,
+            returned := c.returned, generation := c.generation, planHash := some c.planHash }),
+          ("version", c.version)]
+      | .error e => return Json.mkObj [("class", "error"), ("err", errName e)]
+      | .unmodelled => return Json.mkObj [("class", "unmodelled")]
+  | "encode" =>
+    -- {"state": {...}, "score": bool}
+    let st ← req.getObjVal? "state"
+    let vals ← (← getArr st "values").toList.mapM valOfJson
+    if ← getBool req "score" then
+      let bits ← match vals with
+        | [.score b] => pure b
+        | _ => throw "score cursor needs exactly one score value"
+      let g ← getNat st "generation"
+      let so ← getNat st "segment_ord"
+      let di ← getNat st "doc_id"
+      let rt ← getNat st "returned"
+      let c : ScoreCursor := ⟨cursorVersion, g, bits, so, di, rt⟩
+      return Json.mkObj [("cursor", asciiStr (encodeScore c))]
+    else
+      let g ← getNat st "generation"
+      let so ← getNat st "segment_ord"
+      let di ← getNat st "doc_id"
+      let rt ← getNat st "returned"
+      let ph ← getNat st "plan_hash"
+      let c : SortCursor := ⟨sortCursorVersion, g, rt, ph, so, di, vals⟩
+      return Json.mkObj [("cursor", asciiStr (encodeSort c))]
+  | "plan_hash" =>
+    let fs ← planOfJson (← req.getObjVal? "fields")
+    return Json.mkObj [("hash", planHash fs), ("score_fast", isScoreFast fs), ("len", fs.length)]
+  | "walk" =>
+    -- {"dirs":[bool], "keys":[{parts,seg,doc}], "limit": n} → pages
+    let dirs ← (← getArr req "dirs").toList.mapM (·.getBool?)
+    let keys ← (← getArr req "keys").toList.mapM keyOfJson
+    let limit ← getNat req "limit"
+    match walkPages (ltKey dirs) Limits.real id keys limit (keys.length + 2) none with
+    | none => return Json.mkObj [("failed", true)]
+    | some ps => return Json.mkObj [("failed", false), ("pages", Json.arr (ps.map respToJson).toArray)]
+  | "page" =>
+    -- one request with an explicit cursor {"cursor": null | {key, returned}}
+    let dirs ← (← getArr req "dirs").toList.mapM (·.getBool?)
+    let keys ← (← getArr req "keys").toList.mapM keyOfJson
+    let limit ← getNat req "limit"
+    let cur ← match getOpt req "cursor" with
+      | none => pure none
+      | some c => do
+        let k ← keyOfJson (← c.getObjVal? "key")
+        let rt ← getNat c "returned"
+        pure (some ({ key := k, returned := rt } : Cur DKey))
+    match page (ltKey dirs) Limits.real keys cur limit (getNatD req "skipped" 0) with
+    | .ok r => return Json.mkObj [("class", "ok"), ("resp", respToJson r)]
+    | .error .stale => return Json.mkObj [("class", "error"), ("err", "stale")]
+    | .error .advance => return Json.mkObj [("class", "error"), ("err", "advance")]
+  | "gen" =>
+    -- {"segs":[…], "ops":[{"op":"commit","dels":[[i,d]…],"adds":n}|{"op":"compact"}]}
+    let segs ← (← getArr req "segs").toList.mapM segOfJson
+    let ops ← getArr req "ops"
+    let mut idx : Index := segs
+    let mut out : Array Json := #[]
+    for o in ops do
+      let k ← getStr o "op"
+      if k == "commit" then
+        let dels ← (← getArr o "dels").toList.mapM pairOfJson
+        idx := commit idx dels (← getNat o "adds")
+      else if k == "compact" then
+        idx := compact idx
+      else throw s!"bad index op {k}"
+      out := out.push (Json.mkObj [("generation", manifestGen idx),
+        ("segs", Json.arr (idx.map segToJson).toArray)])
+    return Json.mkObj [("states", Json.arr out)]
+  | _ => throw s!"C11: unknown op {op}"
 
 end SL.Drv.C11
